@@ -62,6 +62,17 @@ func c01Programs(tier string) []*Spec {
 						sp.Clients = append(sp.Clients, ops)
 					}
 					add(sp)
+					if rf == "manual" && q == -1 && n == 2 && layout != "uneven" {
+						// WithAutoRefresh() given together with WithManualRefresh: manual wins, bars must still end on
+						// their own; here the bars finish without any refresh request afterwards
+						sp2 := *sp
+						sp2.AutoOpt = true
+						sp2.Clients = [][]Op{completeOps(0, 2), completeOps(1, 2)}
+						add(&sp2)
+						sp3 := *sp
+						sp3.AutoOpt = true
+						add(&sp3)
+					}
 				}
 			}
 		}
